@@ -90,6 +90,9 @@ def run(repo, chk, tier):
     label_side(repo, chk)
     coded_columns(repo, chk)
     coverage(repo, chk)
+    from .common import vector_casts
+    vector_casts(repo, chk, 'C05.4c')
+    block_collapse(repo, chk)
 
 
 def _is_heur(names):
@@ -319,7 +322,10 @@ def coded_columns(repo, chk):
     comb, refs, args, frame = fn.params[:4]
     g = [c for c in calls(fn) if m.dotted(c.func) == f'{IE}.generate_data_for_ranking']
     c = [c for c in calls(fn) if m.dotted(c.func) == f'{IE}.conduct_feature_ranking']
-    ok = len(g) == 1 and [ast.unparse(a) for a in g[0].args] == [comb, refs, args, frame]
+    gd = repo.func(IE, 'generate_data_for_ranking')
+    cf = repo.func(IE, 'conduct_feature_ranking')
+    ba = bind_args(g[0], gd) if len(g) == 1 else {}
+    ok = len(g) == 1 and [ast.unparse(ba[p_]) if p_ in ba else None for p_ in gd.params[:4]] == [comb, refs, args, frame]
     chk.expect(ok, 'C05.4a', 'R6', fn.site(g[0]) if g else fn.site(), ast.unparse(g[0]) if g else '', 'vectors are taken from the coded frame by the names of the combination', 'generate_data_for_ranking must receive (combination, reference features, args, coded frame)')
     ok2 = False
     if len(c) == 1 and g:
@@ -327,7 +333,8 @@ def coded_columns(repo, chk):
         st = par.get(g[0])
         if isinstance(st, ast.Assign) and isinstance(st.targets[0], ast.Tuple):
             a, b = [e.id for e in st.targets[0].elts]
-            ok2 = [ast.unparse(x) for x in c[0].args] == [a, b, args]
+            bc = bind_args(c[0], cf)
+            ok2 = [ast.unparse(bc[p_]) if p_ in bc else None for p_ in cf.params[:3]] == [a, b, args]
     chk.expect(ok2, 'C05.4b', 'R6', fn.site(c[0]) if c else fn.site(), ast.unparse(c[0]) if c else '', 'the scorer receives (first vector, second vector) in that order', 'conduct_feature_ranking must receive the two vectors in the order generate_data_for_ranking returned them')
     # the worker bound in mixed_rank_graph scores its own combination on the category-coded frame
     from .common import column_coding, mrg_model
@@ -512,3 +519,69 @@ def coverage(repo, chk):
     ok_w = (not need) or casts_in_helper or set(widened) == {a1, a2}
     chk.expect(ok_w, 'C05.6', 'R16', fn.site(), f'literals {lits} in the pair hash; widened: {sorted(widened)}', 'codes are widened to int64 before the scalar arithmetic',
                f'category codes arrive as int8/int16 (cat.codes); arithmetic with the literal {lits[0] if lits else ""} on such a scalar overflows / raises OverflowError under NumPy 2 unless both arrays are widened (np.asarray(..., dtype=np.int64)) first')
+
+
+# -- 2e -------------------------------------------------------------------------------------
+def _width_test(t):
+    """(kind, node) for a test of the number of columns of a block: 'single' when it holds for one column, 'multi' when it holds for several"""
+    if isinstance(t, ast.Compare) and len(t.ops) == 1:
+        l, r, op = t.left, t.comparators[0], t.ops[0]
+        def is_width(e):
+            if isinstance(e, ast.Subscript) and isinstance(e.value, ast.Attribute) and e.value.attr == 'shape':
+                i = e.slice
+                return (isinstance(i, ast.Constant) and i.value == 1) or (isinstance(i, ast.UnaryOp) and isinstance(i.op, ast.USub) and isinstance(i.operand, ast.Constant) and i.operand.value == 1)
+            return False
+        if is_width(r) and isinstance(l, ast.Constant):
+            l, r = r, l
+            op = {ast.Lt: ast.Gt(), ast.Gt: ast.Lt(), ast.LtE: ast.GtE(), ast.GtE: ast.LtE()}.get(type(op), op)
+        if is_width(l) and isinstance(r, ast.Constant) and isinstance(r.value, int):
+            c = r.value
+            if (isinstance(op, ast.Eq) and c == 1) or (isinstance(op, ast.Lt) and c == 2) or (isinstance(op, ast.LtE) and c == 1):
+                return 'single'
+            if (isinstance(op, ast.NotEq) and c == 1) or (isinstance(op, ast.Gt) and c == 1) or (isinstance(op, ast.GtE) and c == 2):
+                return 'multi'
+            return 'other'
+    return None
+
+
+def block_collapse(repo, chk):
+    """C05.2e - with a reference model the first vector is a block (reference features + candidate); numba_mi collapses it row-wise with
+    |max(row) - sum(row)|.  For a block of ONE column that formula is |x - x| = 0 for every row: a single-column block must be handed over as
+    the column itself, so the collapse has to sit behind a test of the block's width."""
+    fn = repo.mod(IE).funcs.get('numba_mi')
+    if fn is None:
+        return
+    m = fn.module
+    par = parents(fn.node)
+    coll = [c for c in calls(fn) if (m.dotted(c.func) or '').replace('numpy.', 'np.') == 'np.apply_along_axis']
+    if not coll:
+        chk.ok('C05.2e', 'R14', fn.site(), 'numba_mi', 'no row-wise collapse of a block of columns in numba_mi')
+        return
+    for c in coll:
+        guards = []
+        n, child = par.get(c), c
+        while n is not None and n is not fn.node:
+            if isinstance(n, ast.If):
+                in_body = any(child is x for x in n.body)
+                in_else = any(child is x for x in n.orelse)
+                k = _width_test(n.test)
+                if k in ('single', 'multi') and (in_body or in_else):
+                    guards.append(k if in_body else {'single': 'multi', 'multi': 'single'}[k])
+                elif k == 'other':
+                    guards.append('other')
+            elif isinstance(n, ast.IfExp):
+                k = _width_test(n.test)
+                if k in ('single', 'multi'):
+                    guards.append(k if child is n.body else {'single': 'multi', 'multi': 'single'}[k])
+            child, n = n, par.get(n)
+        # an earlier statement that returns / re-binds for the single-column case
+        any_width = [x for x in ast.walk(fn.node) if isinstance(x, (ast.If, ast.IfExp)) and _width_test(x.test)]
+        if 'multi' in guards:
+            chk.ok('C05.2e', 'R14', fn.site(c), ast.unparse(c)[:100], 'the row-wise collapse is applied to blocks of several columns only; a single-column block is handed over as the column')
+        elif 'single' in guards:
+            chk.bad('C05.2e', 'R14', fn.site(c), ast.unparse(c)[:100], 'the row-wise collapse |max(row) - sum(row)| is applied exactly to single-column blocks, where it is 0 for every row')
+        elif any_width or 'other' in guards or any((isinstance(x, ast.Attribute) and x.attr in ('shape', 'squeeze', 'size', 'ravel', 'flatten')) or (isinstance(x, ast.Name) and x.id in ('len', 'squeeze')) for x in ast.walk(fn.node)):
+            chk.unsure('C05.2e', 'R14', fn.site(c), ast.unparse(c)[:100], 'the width of the block is tested, but not in a form that places the collapse on the several-columns side')
+        else:
+            chk.bad('C05.2e', 'R14', fn.site(c), ast.unparse(c)[:100], 'the row-wise collapse |max(row) - sum(row)| is applied whatever the width of the block: for a block of one column (reference model without usable features) '
+                    'it is |x - x| = 0 for every row, the candidate becomes a constant vector and every MI-numba score is 0 (the function never looks at the shape of the block)')
